@@ -23,11 +23,14 @@ CONFIG = dict(
           "as its own operation inside the Write interval (documented as not atomic); SyncedPool - OpenDB, Names, Flush (head + "
           "one atomic flush per database), NotFlushedSizeEst (sum of per-database reads), Get/Has through GetUnderlying stores "
           "(atomic w.r.t. a whole pool Flush), and all handle operations incl. Drop/Close/GetSnapshot; EventsBuffer - PushEvent "
-          "and Clear with their return value, processed events and released copies (attributed to the call by goroutine), and "
-          "IsBuffered/Total calls that overlap no PushEvent/Clear. Weaker contracts only: iterators concurrent with writers "
-          "(ascending keys in range, only values ever stored under the key, keys no program writes listed exactly); "
-          "EventsBuffer.IsBuffered/Total overlapping a PushEvent/Clear (documented lock-free reads: consistent (count,size) "
-          "snapshot of pushed, unconnected events). Race detection only: Flushable.Stat/Compact. Non-trivial = the recorded "
+          "and Clear with their return value, processed events and released copies (attributed to the call by goroutine), "
+          "IsBuffered and Total; TestC28BufferMidPushRead builds the overlap deterministically (a second goroutine reads from "
+          "inside a Process callback of a running PushEvent). Known finding C28:buffer-total-isbuffered-overlap-push: while "
+          "that key is listed, an IsBuffered/Total call that overlaps a PushEvent/Clear of another goroutine is excluded "
+          "from the porcupine history (counted in excluded_known) and only checked for a weaker contract (consistent "
+          "(count,size) snapshot of pushed, unconnected events); without the key every call is in the history. "
+          "Weaker contracts only: iterators concurrent with writers (ascending keys in range, only values ever stored under "
+          "the key, keys no program writes listed exactly). Race detection only: Flushable.Stat/Compact. Non-trivial = the recorded "
           "history contains two operations of different goroutines that overlap in time and touch the same key/resource; "
           "distinct by program hash. The per-unit 'extra' carries the overlapping op-pair coverage matrix (overlap:A|B)."),
     assumptions=[
